@@ -44,6 +44,15 @@ CHECKS.update({
             "§3-C05", "requests within the advertised heads; known finding F15 (duplicate seq) recorded"),
 })
 
+CHECKS.update({
+    "C07": (True, "exploration", "request-level monitor over the real api_v1_transactions handler: injected statement failures, no-ops, multi-chunk writes, concurrent clients with hook delays; oracles on status/version/broadcast/tables + plain-SQLite replay",
+            "Runtime monitor: seeded request sequences (failures at first/middle/last statement of six kinds incl. timeout, no-ops, up to 20000 cell changes) are submitted to one real node sequentially or from 2-32 concurrent tasks with delays injected at the commit hook; every failed request must leave no value, version or change message behind, acknowledged versions must be consecutive and duplicate-free, captured broadcast chunks must tile 0..=last_seq and carry exactly the written cells, the node must never list a gap for itself, and the final tables must equal a replay of the acknowledged requests in version order on a plain SQLite database.",
+            "§3-C07", "interleavings are sampled (delay injection at local.after_commit), not enumerated"),
+    "C10": (True, "exploration", "overload/re-offer monitor over the real handle_changes loop with hook gauges for logical idleness; state-based oracle (held after <=3 idle re-offer rounds; claimed => stored)",
+            "Runtime monitor: one real node runs the real handle_changes loop with small queues while the harness holds the write connection so the queue overflows under traffic from 1-4 actors (complete, multi-chunk, duplicate changesets); afterwards everything not held is re-offered the way sync would, with logical idleness between rounds (received == sent, queue and in-flight empty, apply triggers drained). A changeset still not held after 3 idle rounds is lost for good; anything bookkeeping claims must be in the table or the buffer.",
+            "§3-C10", "bounded restatement: 3 idle re-offer rounds; one ingest loop per process"),
+})
+
 NOT_YET = {
 }
 
